@@ -77,7 +77,7 @@ def _schema(n_est):
         h.ensures("unit_table.every_unit_still_exactly_once", z3.Implies(facts, ud.axis.multiplicity() == z3.If(z3.Or(t.R, t.N, t.T), 1, 0)))
         # the first estimand's columns are what a single-estimand request would have returned
         rows = z3.And(*ud.axis.facts())
-        h.ensures("unit_table.values_of_an_estimand_do_not_depend_on_the_others", z3.Implies(z3.And(rows, t.N), ud.col("pred_turnout").t == z3.Function("unit_pred_turnout", z3.IntSort(), z3.IntSort())(u)))
+        h.ensures("unit_table.values_of_an_estimand_do_not_depend_on_the_others", z3.Implies(z3.And(rows, t.N), ud.col("pred_turnout").t == z3.Function("unit_pred_turnout", z3.IntSort(), z3.IntSort())(u)), replay=lambda ev: {"target": "verif_replays:unit_table_prediction_replay", "args": [], "check": "result['exc'] is None and result['ok']"})
 
     return schema
 
